@@ -336,6 +336,8 @@ def call_spec(V, spec, self_val, args, kwargs, st, node):
         res = SV(spec.ret, f(*zargs))
     else:
         res = fresh(spec.ret, 'r_' + spec.name.replace('.', '_'))
+    if getattr(spec, 'shared_result', False) and isinstance(res, SV):
+        res.shared = spec.name
     env2 = dict(env)
     env2['result'] = res
     V.old_stack.append((pre, 'call'))
@@ -697,6 +699,26 @@ def delete_subscript(V, t, st, node):
         k = pack(idx, base.t.k)
         V.may_raise(st, z3.Select(srt.dom(base.z), k), 'KeyError', 'del of missing key', node)
         new = srt.mk(z3.Store(srt.dom(base.z), k, False), srt.vals(base.z))
+        V.bind_target(t.value, SV(base.t, new), st, node, mutation=True)
+        return
+    if isinstance(base, MList):
+        iz = simp(pack(idx, INT))
+        if z3.is_int_value(iz):
+            i = iz.as_long()
+            if not (-len(base.items) <= i < len(base.items)):
+                V.may_raise(st, z3.BoolVal(False), 'IndexError', 'list deletion index out of range', node)
+                raise Unsupported('constant deletion index out of range')
+            items = list(base.items)
+            del items[i]
+            V.bind_target(t.value, MList(items), st, node, mutation=True)
+            return
+        raise Unsupported('symbolic index deletion from a concrete list')
+    if isinstance(base, SV) and isinstance(base.t, SeqT):
+        i = pack(idx, INT)
+        n = z3.Length(base.z)
+        V.may_raise(st, z3.And(i >= -n, i < n), 'IndexError', 'list deletion index out of range', node)
+        j = z3.If(i < 0, i + n, i)
+        new = z3.Concat(z3.Extract(base.z, z3.IntVal(0), j), z3.Extract(base.z, j + 1, n - j - 1))
         V.bind_target(t.value, SV(base.t, new), st, node, mutation=True)
         return
     raise Unsupported('del subscript on %r' % (base,))
